@@ -4,6 +4,7 @@ import Driver.TG
 import Driver.MA
 import Driver.PV
 import Driver.FQ
+import Driver.CO
 /-!
 Line-protocol driver: one operation per input line, one observation per output line:
 `<model observation>\t<spec observation>`.  First token selects the component.
@@ -17,6 +18,7 @@ structure All where
   ma : MA.St := {}
   pv : PV.St := {}
   fq : FQ.St := {}
+  co : CO.St := {}
 
 def stepAll (s : All) (line : String) : All × String :=
   match (line.trimAscii.toString.splitOn " ").filter (· ≠ "") with
@@ -38,6 +40,9 @@ def stepAll (s : All) (line : String) : All × String :=
   | "fq" :: args =>
       let (c, a, b) := FQ.step s.fq args
       ({ s with fq := c }, a ++ "\t" ++ b)
+  | "co" :: args =>
+      let (c, a, b) := CO.step s.co args
+      ({ s with co := c }, a ++ "\t" ++ b)
   | [] => (s, "")
   | _ => (s, "bad-component\tbad-component")
 
